@@ -20,6 +20,18 @@ one CH2; (b) ring pairs - every unordered pair of a ring alphabet
 (cyclopropane ... cyclohexane, benzene, cyclohexene, oxirane, oxane; thorough
 + cycloheptane, 1,3-cyclohexadiene) joined by a bond, through CH2, fused and
 spiro (thorough: at every ring atom / ring bond).
+
+Fourth wave (domains/w4_c03.py): substituted ethenes R1R2C=CR3R4 with R over
+{H, methyl, ethyl, tert-butyl} (thorough: + isopropyl), every constitution
+once and, where the double bond can carry a label, unlabelled / E / Z - the
+tri- and tetra-substituted cis/trans-labelled double bonds the curated list
+(1,2-disubstituted only) lacked.  Each molecule is renumbered (string and
+object path) by every single-atom move and the reversal, and by all 24
+relative orders of every quadruple (substituent, C, C', substituent) a
+cis/trans statement can name (thorough: every atom at every position, and on
+the scheme files with a stereo constraint all <= 720 relative orders of the
+two double-bond carbons and their neighbours); and it is put through every
+input form (rootings, Kekule / explicit-hydrogen spellings, objects).
 """
 import itertools
 
@@ -28,6 +40,7 @@ from ..domains import schemes as SD
 from ..domains import molecules as MD
 from ..domains import libs
 from ..domains import w3_c03 as W3
+from ..domains import w4_c03 as W4
 
 LEVEL = 'exploration'
 FULL_SCHEMES = {'quick': ['BensonGA', 'GRWSurface2018'], 'thorough': None}
@@ -47,19 +60,37 @@ BOUND = {
              '(all unordered pairs of 8 rings x {bond, CH2, fused, spiro} at the declared '
              'attachment atom / fusion bond, benzene fused at either Kekule bond; fused '
              'benzenoids excepted = K2), each under the identity, every single atom moved '
-             'to the first / to the last position, and the full reversal, string and object path',
+             'to the first / to the last position, and the full reversal, string and object path; '
+             'on the scheme files of those 2 that contain a cis/trans (stereo double bond) '
+             'constraint (BensonGA): 97 substituted ethenes R1R2C=CR3R4 (all unordered pairs of '
+             'unordered pairs over {H, Me, Et, tBu}; unlabelled, E and Z where the bond can carry '
+             'a label; 2-18 heavy atoms), each under the single-atom moves and the reversal as '
+             'above plus all 24 relative orders of every quadruple (substituent, C, C\', '
+             'substituent) with the other atoms in place (5970 renumberings, string and object '
+             'path), and each in every input form',
     'thorough': 'all permutations up to 6 heavy atoms, on all 6 distinct scheme files, all-atom '
                 'permutations for <= 7 atoms and ethane, placements of all 3-subsets; '
                 'on all 6 scheme files the bifunctional molecules and the ring pairs over 10 '
                 'rings joined at every ring atom / ring bond, each under all 1-subset '
-                'placements (every atom at every position) and the full reversal'}
+                'placements (every atom at every position) and the full reversal; '
+                'on all 6 scheme files the 230 substituted ethenes over {H, Me, Et, iPr, tBu} '
+                '(unlabelled / E / Z), each under all 1-subset placements, the reversal and the '
+                '24 relative orders of every (substituent, C, C\', substituent) quadruple, on the '
+                'scheme files with a stereo constraint (BensonGA, PPY) also under all <= 720 '
+                'relative orders of the double-bond carbons and their neighbours; every input '
+                'form of each'}
 RULE = ('every spelling/renumbering in the stated space is decomposed and '
         'compared with the canonical spelling of the same molecule; '
         'non-trivial = the spelling differs from the canonical one and the '
         'molecule has at least two heavy atoms or a correction descriptor; '
         'for the ring pairs the counter ringpair_orders_other_ring_first '
         'counts the renumberings under which RDKit lists the rings in '
-        'another size order than for the canonical spelling')
+        'another size order than for the canonical spelling; for the '
+        'substituted ethenes the counters ethene_strings_double_bond_from_'
+        '{lower,higher}_ranked_end count the SMILES spellings in which the '
+        'double bond is written starting from its lower / higher '
+        'canonically ranked carbon, ethene_labelled_cases the cases on a '
+        'molecule with an E/Z label')
 ASSUMPTIONS = ['every generated spelling is first checked to parse back to the '
                'same canonical isomeric SMILES (a spelling that does not is a '
                'harness error, never a case)',
@@ -73,6 +104,14 @@ ASSUMPTIONS = ['every generated spelling is first checked to parse back to the '
                'every pair of atoms (hence of every pair of group centres and '
                'of which ring holds the lowest-numbered atom), not over all '
                'renumberings',
+               'substituted ethenes (2-18 heavy atoms): besides the single-atom '
+               'moves, exhaustive over the relative order of the four atoms any '
+               'cis/trans statement names (quick) / of the double-bond carbons '
+               'and all their neighbours (thorough, stereo schemes), the other '
+               'atoms staying in place; not over all renumberings.  Their '
+               'labelled spellings are written by RDKit (MolToSmiles of the '
+               'renumbered object, canonical=False), which decides where the '
+               '/ and \\ marks go',
                'ring joins RDKit cannot sanitise are not molecules and are left '
                'out; fused benzene + benzene is finding K2 (CURATED_FUSED)']
 MANIFEST = dict(
@@ -83,13 +122,18 @@ MANIFEST = dict(
          'smallest ones, all placements of small atom subsets in larger '
          'molecules (the index-collision class), all single-atom moves in '
          'every molecule made of two functional groups or of two rings '
-         '(joined by a bond, a CH2, fused or spiro), and all input forms, must '
+         '(joined by a bond, a CH2, fused or spiro), all single-atom moves '
+         'and all relative orders of the atoms a cis/trans statement names in '
+         'every substituted ethene R1R2C=CR3R4 over {H, Me, Et, tBu} with '
+         'and without E/Z labels, and all input forms, must '
          'give the same descriptors (or the same failure) as the canonical '
          'spelling on the shipped scheme files; object and string input must '
          'give the same estimates.',
     note='Fused benzenoid ring systems are a recorded finding (K2); '
          'renumberings of molecules with > 6 heavy atoms are covered only '
-         'through subset placements / single-atom moves.',
+         'through subset placements / single-atom moves (substituted '
+         'ethenes: also the relative orders of the double-bond atoms and '
+         'their neighbours).',
     ref='5/C03')
 
 
@@ -294,6 +338,76 @@ def run_w3(R, name, fam, smi, tier, only=None):
                   spelling=string_for(M, tuple(reversed(range(M.n))))), limit=1)
 
 
+# ------------------------------------------------------------ fourth wave
+
+def stereo_schemes(names):
+    """Those of `names` whose scheme file holds a cis/trans constraint (read
+    from the YAML text, not through pgradd)."""
+    return [n for n in names
+            if 'stereo double bond' in open(SD.scheme_path(n)).read()]
+
+
+def w4_schemes(tier):
+    """quick: the scheme files of the quick list with a stereo constraint
+    (BensonGA); thorough: all distinct scheme files."""
+    return stereo_schemes(schemes_for(tier)) if tier == 'quick' \
+        else list(schemes_for(tier))
+
+
+def w4_molecules(tier):
+    return [s for s, _ in W4.ethenes(tier)]
+
+
+def w4_orders(name, M, tier):
+    """quick: identity, single-atom moves, reversal, and all 24 relative
+    orders of every (substituent, C, C', substituent) quadruple; thorough:
+    every atom at every position instead of the moves, and on the schemes
+    with a stereo constraint all relative orders of the double-bond carbons
+    and their neighbours (supersets)."""
+    if tier == 'quick':
+        out = list(W3.moves(M.n))
+    else:
+        out = list(placements(M.n, 1))
+        out.append(tuple(reversed(range(M.n))))
+    out += W4.core_first_orders(M.m)
+    if tier != 'quick' and stereo_schemes([name]):
+        out += W4.core_orders(M.m)
+    seen, res = set(), []
+    for o in out:
+        if o not in seen:
+            seen.add(o)
+            res.append(o)
+    return res
+
+
+def run_w4(R, name, smi, tier, only=None):
+    """One substituted ethene under every renumbering of w4_orders (or the
+    single renumbering `only`), string and object path."""
+    from rdkit import Chem
+    S = scheme(name)
+    M = Mol(smi)
+    base = desc(S, M.canon)
+    labelled = MD.has_stereo(M.m)
+    ok_s = ok_o = True
+    for order in ([tuple(only)] if only is not None else w4_orders(name, M, tier)):
+        if ok_s or only is not None:
+            x = string_for(M, order)
+            side = W4.bond_written_first(Chem.MolFromSmiles(x))
+            if side != 'tie':
+                R.extra['ethene_strings_double_bond_from_%s_ranked_end' % (
+                    'lower' if side == 'low-first' else 'higher')] += 1
+            R.extra['ethene_labelled_cases'] += int(labelled)
+            ok_s = check_variant(R, name, S, M, base, 'string-ethene', x, list(order))
+        if ok_o or only is not None:
+            R.extra['ethene_labelled_cases'] += int(labelled)
+            ok_o = check_variant(R, name, S, M, base, 'object-ethene',
+                                 object_for(M, order), list(order))
+        if not ok_s and not ok_o:
+            break
+    R.sample(dict(scheme=name, family='ethene', molecule=M.canon,
+                  spelling=string_for(M, tuple(reversed(range(M.n))))), limit=1)
+
+
 def forms(M):
     """Input forms: (label, x)."""
     from rdkit import Chem
@@ -423,10 +537,17 @@ def small_molecules(name, tier):
 
 
 W3_CHUNKS = 8
+W4_CHUNKS = {'quick': 12, 'thorough': 48}
+W4_FORM_CHUNKS = 4
 
 
 def shards(tier, seed):
     out = []
+    for name in w4_schemes(tier):
+        for i in range(W4_CHUNKS[tier]):
+            out.append(('w4', name, i, W4_CHUNKS[tier]))
+        for i in range(W4_FORM_CHUNKS):
+            out.append(('w4forms', name, i, W4_FORM_CHUNKS))
     for name in schemes_for(tier):
         mols = small_molecules(name, tier)
         nch = 40
@@ -460,6 +581,13 @@ def run_shard(shard, tier):
         _, name, fam, i, n = shard
         for smi in w3_molecules(fam, tier)[i::n]:
             run_w3(R, name, fam, smi, tier)
+    elif shard[0] == 'w4':
+        _, name, i, n = shard
+        for smi in w4_molecules(tier)[i::n]:
+            run_w4(R, name, smi, tier)
+    elif shard[0] == 'w4forms':
+        _, name, i, n = shard
+        run_forms(R, name, w4_molecules(tier)[i::n])
     elif shard[0] == 'forms':
         _, name, i, n = shard
         mols = SD.molecules_for(name, 'quick') + BIG + MD.CURATED_FUSED
@@ -478,6 +606,8 @@ def replay(w):
     elif w['how'].split('-')[-1] in W3_FAMILIES:
         run_w3(R, w['scheme'], w['how'].split('-')[-1], w['smiles'], 'quick',
                only=w['label'])
+    elif w['how'].split('-')[-1] == 'ethene':
+        run_w4(R, w['scheme'], w['smiles'], 'quick', only=w['label'])
     elif w['how'] == 'object-allatoms':
         from rdkit import Chem
         S = scheme(w['scheme'])
